@@ -21,6 +21,10 @@ def eqSmall (a b : Rat) : Bool := decide (absQ (a - b) ≤ Gen.equalToleranceSma
 /-- `isProbability(size, in)` (template): no entry `< 0`, and `!checkDifferentSmall(sum, 1.0)` -/
 def isProb (l : List Rat) : Bool := l.all (fun x => !decide (x < 0)) && eqSmall l.sum 1
 
+/-- `isProbability(const SparseMatrix2D &)` on one row (src/Utils/Probability.cpp): Eigen sparse has no
+    `minCoeff`, so negativity is detected through the sum of absolute values -/
+def isProbSparse (l : List Rat) : Bool := eqSmall l.sum 1 && eqSmall (l.map absQ).sum 1
+
 /-! ## dense `sampleProbability(d, in, generator)`
 
     double p = draw;
